@@ -7,6 +7,7 @@ import (
 	"fmt"
 	"sort"
 	"strings"
+	"sync"
 
 	"verifsim/simrt"
 )
@@ -48,6 +49,7 @@ type Ctx struct {
 	WantDesc bool
 	desc     []string
 	clock    int
+	hmu      sync.Mutex
 	// PanicOracle is the oracle id a panic escaping a library call is attributed to.
 	PanicOracle string
 	// PanicClassify, if set, maps the text of a panic that escaped a library-spawned task to an oracle id.
@@ -55,6 +57,23 @@ type Ctx struct {
 	// SpinOracle is the oracle id a detected busy-wait is attributed to.
 	SpinOracle string
 	Only       string // restrict oracles to this property ("" = all)
+}
+
+// Pub and Sub are the synchronisation a real client would use when it hands an
+// object obtained from the library (a release function, a context, a reference)
+// from one goroutine to another: Pub after producing it, Sub before another
+// task uses it. They are a lock/unlock of one real mutex, so the race detector
+// sees a happens-before edge from every earlier Pub to every later Sub. The
+// token discipline of the simulator itself deliberately creates no such edge.
+func (c *Ctx) Pub() {
+	c.hmu.Lock()
+	c.hmu.Unlock() //nolint
+}
+
+// Sub: see Pub.
+func (c *Ctx) Sub() {
+	c.hmu.Lock()
+	c.hmu.Unlock() //nolint
 }
 
 // Descf appends a line to the run's plan description (kept only for sample runs).
